@@ -26,78 +26,102 @@ import vlib
 
 HAND_FILES = ["Props/C28_model.v"]
 
-N = 2   # dimension of every space in the numeric oracle
+
+
+DIMS = {0: 2, 1: 2, 2: 3, 3: 3}   # numeric dimension of the spaces V, V*, U, U*
 
 
 class World:
-    """Fresh leaves for one case (constructors may mutate their operands: see the known finding)."""
+    """Fresh leaves for one case (constructors may mutate their operands: see the known finding).
+    Space codes: 0 = V (P1), 1 = V*, 2 = U (P2), 3 = U*."""
 
     def __init__(self, rng):
         self.rng = rng
         self.mesh = uflgen.mesh("triangle")
-        self.V = uflgen.space((), "triangle")
-        self.Vd = self.V.dual()
+        V = uflgen.space((), "triangle")
+        U = uflgen.space((), "triangle", degree=2)
+        self.spaces = [V, V.dual(), U, U.dual()]
+        self.V, self.Vd = self.spaces[0], self.spaces[1]
         self.dx = ufl.dx(domain=self.mesh)
-        self.base_integrands = []     # id -> integrand of the base form
-        self.mats, self.cofs, self.coefs = [], [], []
+        self.base_integrands = []     # id -> (integrand of the base form, sig)
+        self.leaves, self.coefs = [], []
         self.num = {}
 
-    def tensor(self, key, rank):
+    def code(self, space):
+        for i, sp in enumerate(self.spaces):
+            if sp == space:
+                return i
+        raise ValueError("unknown function space")
+
+    def sig_of(self, o):
+        return [self.code(a.ufl_function_space()) for a in o.arguments()]
+
+    def tensor(self, key, sig):
         if key not in self.num:
-            self.num[key] = np.array([self.rng.randint(-3, 3) for _ in range(N ** rank)], dtype=object).reshape((N,) * rank)
+            shape = tuple(DIMS[c] for c in sig)
+            n = int(np.prod(shape)) if shape else 1
+            self.num[key] = np.array([self.rng.randint(-3, 3) for _ in range(n)], dtype=object).reshape(shape)
         return self.num[key]
 
-    def form(self, rank):
-        c = Constant(self.mesh)
-        e = c
-        if rank >= 1:
-            e = e * Argument(self.V, 0)
-        if rank >= 2:
-            e = e * Argument(self.V, 1)
+    def form(self, sig):
+        e = Constant(self.mesh)
+        for i, c in enumerate(sig):
+            e = e * Argument(self.spaces[c], i)
         f = e * self.dx
-        self.base_integrands.append((f.integrals()[0].integrand(), rank))
+        self.base_integrands.append((f.integrals()[0].integrand(), tuple(sig)))
         return f
 
-    def matrix(self, dualcol):
-        m = Matrix(self.V, self.Vd if dualcol else self.V)
-        self.mats.append(m)
+    def matrix(self, sig):
+        m = Matrix(self.spaces[sig[0]], self.spaces[sig[1]])
+        self.leaves.append(m)
         return m
 
-    def cofunction(self):
-        c = Cofunction(self.Vd)
-        self.cofs.append(c)
-        return c
+    def cofunction(self, c):
+        cf = Cofunction(self.spaces[c ^ 1])
+        self.leaves.append(cf)
+        return cf
 
-    def coefficient(self):
-        c = Coefficient(self.V)
-        self.coefs.append(c)
-        return c
+    def coefficient(self, c):
+        f = Coefficient(self.spaces[c])
+        self.coefs.append(f)
+        return f
 
     def zero(self, sig):
-        args = tuple(Argument(self.V if s == "P" else self.Vd, i) for i, s in enumerate(sig))
-        return ZeroBaseForm(args)
+        return ZeroBaseForm(tuple(Argument(self.spaces[c], i) for i, c in enumerate(sig)))
 
 
 # ----------------------------------------------------------------------------------------------
 # typed generation of compositions.  A composition is a tuple tree; leaves carry the real object.
 
-LEAVES = {(): ["form"], ("P",): ["form", "cof"], ("P", "P"): ["form", "mat"], ("P", "D"): ["matd", "coarg"]}
 WEIGHTS = [1, 1, 2, 3, -1, -2]
+
+
+def leaf_kinds(sig):
+    ks = []
+    if all(c % 2 == 0 for c in sig) and len(sig) <= 2:
+        ks.append("form")
+    if len(sig) == 1 and sig[0] % 2 == 0:
+        ks.append("cof")
+    if len(sig) == 2:
+        ks.append("mat")
+        if tuple(sig) == (0, 1):
+            ks.append("coarg")
+    return ks
 
 
 def gen(w, sig, depth):
     rng = w.rng
     sig = tuple(sig)
     opts = []
-    if sig in LEAVES:
+    if leaf_kinds(sig):
         opts += ["leaf"] * (3 if depth > 0 else 1)
-    if len(sig) <= 2 and rng.random() < 0.12:
+    if len(sig) <= 2 and rng.random() < 0.15:
         opts.append("zero")
     if depth > 0:
         opts += ["add", "sub", "neg", "mul", "fs1", "fs2", "fs3", "actf", "actf", "actc", "actc", "adj", "adj"]
-        if sig and sig[-1] == "D" and rng.random() < 0.5:
+        if tuple(sig[-1:]) == (1,) and rng.random() < 0.5:
             opts.append("actid")
-        if sig and sig[0] == "P" and rng.random() < 0.3:
+        if tuple(sig[:1]) == (0,) and rng.random() < 0.3:
             opts.append("idact")
     rng.shuffle(opts)
     for o in opts:
@@ -111,15 +135,13 @@ def gen_opt(w, sig, depth, o):
     rng = w.rng
     d = depth - 1
     if o == "leaf":
-        k = rng.choice(LEAVES[sig])
+        k = rng.choice(leaf_kinds(sig))
         if k == "form":
-            return ("obj", w.form(len(sig)))
+            return ("obj", w.form(sig))
         if k == "cof":
-            return ("obj", w.cofunction())
+            return ("obj", w.cofunction(sig[0]))
         if k == "mat":
-            return ("obj", w.matrix(False))
-        if k == "matd":
-            return ("obj", w.matrix(True))
+            return ("obj", w.matrix(sig))
         return ("obj", Coargument(w.Vd, 1))
     if o == "zero":
         return ("obj", w.zero(sig))
@@ -138,24 +160,24 @@ def gen_opt(w, sig, depth, o):
         if any(p is None for p in parts):
             return None
         return ("fs", [(p, rng.choice(WEIGHTS)) for p in parts])
-    if o == "actf":          # contraction with a base form: left ends in V*, right starts in V
-        if len(sig) > 2:
-            return None
+    if o == "actf":          # contraction with a base form: last space of left = dual of first of right
         k = rng.randint(0, len(sig))
         s1, s2 = sig[:k], sig[k:]
         if len(s1) > 1 or len(s2) > 1:
             return None
-        l, r = gen(w, s1 + ("D",), d), gen(w, ("P",) + s2, d)
+        x = rng.choice([1, 1, 3, 3, 0, 2])
+        l, r = gen(w, s1 + (x,), d), gen(w, (x ^ 1,) + s2, d)
         return None if l is None or r is None else ("act", l, r)
     if o == "actc":          # contraction with a Coefficient / sum of two Coefficients
         if len(sig) > 1:
             return None
-        l = gen(w, sig + ("P",), d)
+        x = rng.choice([0, 0, 2])
+        l = gen(w, sig + (x,), d)
         if l is None:
             return None
         if rng.random() < 0.3:
-            return ("act", l, ("obj", w.coefficient() + w.coefficient()))
-        return ("act", l, ("obj", w.coefficient()))
+            return ("act", l, ("obj", w.coefficient(x) + w.coefficient(x)))
+        return ("act", l, ("obj", w.coefficient(x)))
     if o == "actid":         # identity on the right: Action(l, Coargument) -> l
         l = gen(w, sig, d)
         return None if l is None else ("act", l, ("obj", Coargument(w.Vd, 1)))
@@ -296,6 +318,8 @@ def evaluate1(e):
         raise Skip()         # FormSum holding the Argument that Adjoint(Coargument) returns: arguments() breaks
     if is_cyclic(r):
         raise CyclicFound((e, r), LAST["inclass"] if k == "act" else False)
+    if numbering_class(r):
+        LAST["numclass"] = True      # known finding action-argument-numbering reached by an operand
     return r
 
 
@@ -325,7 +349,7 @@ def struct(w, o):
             raise ValueError(f"non-integer FormSum weight {ws!r}")
         return ("FSum", [(struct(w, c), int(x)) for c, x in zip(o.components(), ws)])
     if isinstance(o, ZeroBaseForm):
-        return ("ZeroF", len(o.arguments()))
+        return ("ZeroF", w.sig_of(o))
     if isinstance(o, Form):
         terms = []
         for itg in o.integrals():
@@ -336,12 +360,9 @@ def struct(w, o):
                     break
             else:
                 raise ValueError(f"integrand is not a scaled base form: {itg.integrand()!r}")
-        return ("FormL", len(o.arguments()), terms)
-    if isinstance(o, Matrix):
-        i = [x is o for x in w.mats].index(True)
-        return ("Leaf", 1 if o.ufl_function_spaces()[1] == w.Vd else 0, i)
-    if isinstance(o, Cofunction):
-        return ("Leaf", 2, [x is o for x in w.cofs].index(True))
+        return ("FormL", w.sig_of(o), terms)
+    if isinstance(o, (Matrix, Cofunction)):
+        return ("Leaf", w.sig_of(o), [x is o for x in w.leaves].index(True))
     if isinstance(o, Coargument):
         return ("CoArg",)
     if isinstance(o, Argument):
@@ -359,18 +380,22 @@ def qz(n):
     return str(n) if n >= 0 else f"({n})"
 
 
+def qn(xs):
+    return "[" + "; ".join(f"{int(x)}%nat" for x in xs) + "]"
+
+
 def q(st):
     k = st[0]
     if k == "FormL":
-        return f"(FormL {st[1]}%nat [" + "; ".join(f"({qz(wt)}, {i}%nat)" for wt, i in st[2]) + "])"
+        return f"(FormL {qn(st[1])} [" + "; ".join(f"({qz(wt)}, {i}%nat)" for wt, i in st[2]) + "])"
     if k == "Leaf":
-        return f"(Leaf {st[1]}%nat {st[2]}%nat)"
+        return f"(Leaf {qn(st[1])} {st[2]}%nat)"
     if k == "Coef":
         return f"(Coef {st[1]}%nat)"
     if k == "CoefSum":
         return "(CoefSum [" + "; ".join(f"{i}%nat" for i in st[1]) + "])"
     if k == "ZeroF":
-        return f"(ZeroF {st[1]}%nat)"
+        return f"(ZeroF {qn(st[1])})"
     if k == "FSum":
         return "(FSum [" + "; ".join(f"({q(c)}, {qz(wt)})" for c, wt in st[1]) + "])"
     if k == "Act":
@@ -424,29 +449,43 @@ def show(e):
 # ----------------------------------------------------------------------------------------------
 # numeric oracle (search only)
 
-def num_struct(w, st):
+def tensors_differ(a, b):
+    a, b = np.asarray(a, dtype=object), np.asarray(b, dtype=object)
+    if a.shape != b.shape:
+        # an empty Form (all integrals vanished) has lost its arguments: it still denotes zero
+        return bool(np.any(a != 0)) or bool(np.any(b != 0))
+    return bool(np.any(a != b))
+
+
+def zeros(sig):
+    return np.zeros(tuple(DIMS[c] for c in sig), dtype=object) if sig else np.array(0, dtype=object)
+
+
+def num_struct(w, st, kill=((), ())):
+    """Assemble a structure; `kill` = (base form ids, leaf ids) that denote zero."""
     k = st[0]
     if k == "FormL":
-        t = np.zeros((N,) * st[1], dtype=object) if st[1] else np.array(0, dtype=object)
+        t = zeros(st[1])
         for wt, i in st[2]:
-            t = t + wt * w.tensor(("F", i), w.base_integrands[i][1])
+            if i not in kill[0]:
+                t = t + wt * w.tensor(("F", i), w.base_integrands[i][1])
         return t
     if k == "Leaf":
-        return w.tensor(("X", st[1], st[2]), 1 if st[1] == 2 else 2)
+        return zeros(st[1]) if st[2] in kill[1] else w.tensor(("X", st[2]), st[1])
     if k == "Coef":
-        return w.tensor(("Y", st[1]), 1)
+        return w.tensor(("Y", st[1]), [w.code(w.coefs[st[1]].ufl_function_space())])
     if k == "CoefSum":
-        return sum(w.tensor(("Y", i), 1) for i in st[1])
+        return sum(num_struct(w, ("Coef", i)) for i in st[1])
     if k == "ZeroF":
-        return np.zeros((N,) * st[1], dtype=object) if st[1] else np.array(0, dtype=object)
+        return zeros(st[1])
     if k == "FSum":
-        return sum(wt * num_struct(w, c) for c, wt in st[1])
+        return sum(wt * num_struct(w, c, kill) for c, wt in st[1])
     if k == "Act":
-        return np.tensordot(num_struct(w, st[1]), num_struct(w, st[2]), axes=1)
+        return np.tensordot(num_struct(w, st[1], kill), num_struct(w, st[2], kill), axes=1)
     if k == "Adj":
-        return num_struct(w, st[1]).T
+        return num_struct(w, st[1], kill).T
     if k in ("CoArg", "Arg"):
-        return np.eye(N, dtype=int).astype(object)
+        return np.eye(DIMS[0], dtype=int).astype(object)
     raise ValueError(k)
 
 
@@ -531,18 +570,20 @@ Require Import UFLV.Props.C28_model.
 Open Scope Z_scope.
 """
 
-SIGS = [(), ("P",), ("P",), ("P", "P"), ("P", "P"), ("P", "D"), ("P", "D"), ("D", "P"), ("D",)]
+SIGS = [(), (0,), (0,), (2,), (0, 0), (0, 2), (2, 0), (2, 2), (0, 1), (0, 1), (0, 3), (2, 1), (2, 3),
+        (1, 0), (3, 0), (1,), (3,)]
 
 
 def make_case(seed, idx, tier, attempt=0):
     rng = random.Random(f"C28-{seed}-{idx}-{attempt}")
     w = World(rng)
+    LAST["numclass"] = False
     for _ in range(20):
         e = gen(w, rng.choice(SIGS), rng.choice([1, 2, 2, 3, 3] if tier == "quick" else [1, 2, 3, 3, 4]))
         if e is not None and e[0] != "obj":
             break
     else:
-        e = ("adj", ("obj", w.matrix(False)))
+        e = ("adj", ("obj", w.matrix((0, 2))))
     # quote the composition BEFORE evaluating it (evaluation may mutate operands)
     try:
         r = evaluate(e)
@@ -552,7 +593,72 @@ def make_case(seed, idx, tier, attempt=0):
         cyclic = "inclass" if c.inclass else "outside"
     except Skip:
         return make_case(seed, idx, tier, attempt + 1)
+    w.numclass = LAST["numclass"]
     return w, e, r, cyclic
+
+
+def kill_function(w, KF, KX):
+    """The `function` handed to map_integrands: base forms KF and leaves KX vanish."""
+    from ufl.classes import Zero
+
+    def function(o):
+        if isinstance(o, (Matrix, Cofunction)):
+            i = [x is o for x in w.leaves].index(True)
+            return ZeroBaseForm(o.arguments()) if i in KX else o
+        if isinstance(o, (Coargument, Argument, Coefficient, Sum)) and not isinstance(o, Form):
+            _, e = peel(o)
+            if not any(b == e for b, _ in w.base_integrands):
+                return o
+        wt, e = peel(o)
+        for i, (b, _) in enumerate(w.base_integrands):
+            if b == e:
+                return Zero() if i in KF else o
+        return o
+    return function
+
+
+def would_empty(st, KF):
+    """Does killing KF leave a Form without integrals below an Action / Adjoint ?  (Action/Adjoint of an
+    empty Form raise IndexError/ValueError: a crash, not a question of value)"""
+    def empty(x):
+        return x[0] == "FormL" and x[2] and all(i in KF for _, i in x[2])
+
+    def walk(x, under):
+        if x[0] == "FormL":
+            return under and empty(x)
+        if x[0] == "FSum":
+            return any(walk(c, under) for c, _ in x[1])
+        if x[0] == "Act":
+            return walk(x[1], True) or walk(x[2], True)
+        if x[0] == "Adj":
+            return walk(x[1], True)
+        return False
+    return walk(st, False)
+
+
+def map_stream(w, r, st, rng):
+    """Run the real map_integrands with a killing function on the built object.
+    Returns None (nothing to compare) or (KF, KX, structure of the result)."""
+    from ufl.algorithms.map_integrands import map_integrands
+    nF, nX = len(w.base_integrands), len(w.leaves)
+    KF = sorted(i for i in range(nF) if rng.random() < 0.35)
+    KX = sorted(i for i in range(nX) if rng.random() < 0.35)
+    if not KF and not KX:
+        return None
+    LAST["inclass"] = False
+    try:
+        r2 = map_integrands(kill_function(w, KF, KX), r)
+    except RecursionError:
+        return None
+    except (IndexError, ValueError, TypeError) as ex:
+        if would_empty(st, KF):
+            return None
+        raise Rejected(("map_integrands", KF, KX), ex)
+    if is_cyclic(r2) or not isinstance(r2, (ufl.form.BaseForm,)):
+        return None
+    if isinstance(r2, FormSum) and any(isinstance(c, Argument) for c in r2.components()):
+        return None
+    return KF, KX, struct(w, r2)
 
 
 def known_replay():
@@ -572,11 +678,12 @@ def known_replay():
 
 
 def main(run):
-    n = 300 if run.tier == "quick" else 4000
+    n = 240 if run.tier == "quick" else 4000
     findings = vlib.load_known_findings("C28")
     cases, texts = [], []
     cyc_hits = 0
     num_hits = 0
+    maps = 0
     rejected = 0
     # which behaviour does the code under test have?  (pinned: Action.__init__ re-runs on the object
     # Action.__new__ returned; with fixes/C28-action-reinit.diff it does not)
@@ -595,6 +702,14 @@ def main(run):
         st = struct(w, r)
         nm = f"c28_{idx}"
         lines = [f"(* {show(e)} *)", f"Definition {nm} : bexp :=\n  {qexp(w, e)}."]
+        if w.numclass and not cyclic:
+            # an operand reports too many arguments (known finding): everything downstream that looks at
+            # arguments() (ZeroBaseForm arguments, function space checks) is polluted; not compared
+            num_hits += 1
+            texts.append(f"(* case {idx} skipped: inside the class of action-argument-numbering: {show(e)} *)\n")
+            cases.append((w, e, r, "numclass", st, None))
+            run.count_case(qexp(w, e), nontrivial=True)
+            continue
         if cyclic:
             # the re-initialised object is shared by every alias: only the fact is compared
             lines += [f"(* real: {q(st)[:400]} *)",
@@ -609,13 +724,32 @@ def main(run):
                 if not has_zero(st):
                     ns = "; ".join(f"{a.number()}%nat" for a in r.arguments())
                     lines += [f"Example {nm}_nums : nums (build MODE {nm}) = [{ns}].", "Proof. vm_compute. reflexivity. Qed."]
-                if numbering_class(r):
-                    num_hits += 1
-                else:
+                if not numbering_class(r):
+                    lines += [f"Example {nm}_sig : sig (build MODE {nm}) = {qn(w.sig_of(r))}.",
+                              "Proof. vm_compute. reflexivity. Qed."]
                     lines += [f"Example {nm}_rank : rank (build MODE {nm}) = {nargs(r)}%nat.",
                               "Proof. vm_compute. reflexivity. Qed."]
+        mp = None
+        if not cyclic and isinstance(r, ufl.form.BaseForm):
+            try:
+                mp = map_stream(w, r, st, random.Random(f"C28-map-{run.seed}-{idx}"))
+            except Rejected as rj:
+                if rejected < 2:
+                    run.violation({"broken": "map_integrands raises on a base form it should map",
+                                   "composition": show(e), "base_form": q(st), "killed (forms, leaves)": list(rj.e[1:]),
+                                   "error": f"{type(rj.exc).__name__}: {rj.exc}",
+                                   "reproduce": f"VERIF_SEED={run.seed} bin/check C28 --tier {run.tier}  (case {idx})"}, True)
+                rejected += 1
+        if mp is not None:
+            KF, KX, st2 = mp
+            lines += [f"(* map_integrands with base forms {KF} and leaves {KX} vanishing *)",
+                      f"Example {nm}_map : mapK MODE {qn(KF)} {qn(KX)} (build MODE {nm}) =\n  {q(st2)}.",
+                      "Proof. vm_compute. reflexivity. Qed.",
+                      f"Example {nm}_msafe : msafe MODE {qn(KF)} {qn(KX)} (build MODE {nm}) = true.",
+                      "Proof. vm_compute. reflexivity. Qed."]
+            maps += 1
         texts.append("\n".join(lines) + "\n")
-        cases.append((w, e, r, cyclic, st))
+        cases.append((w, e, r, cyclic, st, mp))
         run.count_case(qexp(w, e), nontrivial=True)
         if idx < 5:
             run.sample({"case": idx, "composition": show(e), "real_result": q(st)[:300],
@@ -639,7 +773,7 @@ def main(run):
     bad = [r for r in allres[len(hand):] if not r.ok]
     if bad:
         found = False
-        for idx, (w, e, r, cyclic, st) in enumerate(cases):
+        for idx, (w, e, r, cyclic, st, mp) in enumerate(cases):
             if cyclic == "outside":
                 run.violation({"broken": "a constructor returned an object that is its own operand (re-initialised "
                                          "instance) OUTSIDE the known-finding class",
@@ -653,9 +787,27 @@ def main(run):
                 got = np.asarray(num_struct(w, st), dtype=object)
                 want = np.asarray(num_exp(w, e), dtype=object)
                 differs = got.shape != want.shape or bool(np.any(got != want))
+                if differs and got.shape != want.shape and "FormL []" in q(st):
+                    differs = tensors_differ(got, want)
             except Exception as ex:      # shapes that cannot even be contracted
                 differs, got, want = True, repr(ex), None
             rank_bad = nargs(r) is not None and nargs(r) != spec_rank(w, e) and not numbering_class(r)
+            if not differs and not rank_bad and mp is not None:
+                KF, KX, st2 = mp
+                try:
+                    g2 = np.asarray(num_struct(w, st2), dtype=object)
+                    w2 = np.asarray(num_struct(w, st, (KF, KX)), dtype=object)
+                    mdiff = tensors_differ(g2, w2) if "FormL []" in q(st2) else (g2.shape != w2.shape or bool(np.any(g2 != w2)))
+                except Exception as ex:
+                    mdiff, g2, w2 = True, repr(ex), None
+                if mdiff:
+                    run.violation({"broken": "map_integrands does not preserve the multilinear map (killed leaves denote zero)",
+                                   "composition": show(e), "base_form": q(st), "killed base forms": KF, "killed leaves": KX,
+                                   "map_integrands_result": q(st2), "assembled_result": str(g2), "assembled_expected": str(w2),
+                                   "leaf_tensors": {str(k): str(v.tolist()) for k, v in w.num.items()},
+                                   "reproduce": f"VERIF_SEED={run.seed} bin/check C28 --tier {run.tier}  (case {idx})"}, True)
+                    found = True
+                    break
             if differs or rank_bad:
                 run.violation({"broken": "the object built by the base-form constructors does not assemble to the "
                                          "multilinear map of the composition" if differs else
@@ -698,6 +850,7 @@ def main(run):
                       f"{len(sm.arguments())} arguments; {num_hits} generated compositions inside the class]")
     elif num_hits:
         run.violation({"broken": "a FormSum of k-argument components reports more than k arguments", "cases": num_hits}, True)
+    run.extra["map_integrands_cases"] = maps
     run.extra["cyclic_cases"] = cyc_hits
     run.extra["numbering_class_cases"] = num_hits
     run.trusted.update([
